@@ -7,6 +7,7 @@ from checks import c11
 ID = "C09"
 LEAN_MODULE = "Ctrmml.Properties.C09"
 THEOREMS = ["C09_mds_shape", "C09_track_table_exact", "C09_slot_count", "C09_volume_carried", "C09_ids_injective_partial",
+            "C09_ids_injective", "C09_tracks_exact", "C09_index_resolves", "C09_event_names", "C09_data_resolves", "C09_nothing_unused",
             "C09_index_fits_byte", "C09_d19_counterexample_before_fix"]
 LEVEL = "proof"
 STREAM = "mds.bytes+conv.maps"
@@ -14,16 +15,21 @@ CHUNK = 120
 CASE_SECONDS = 30
 TECHNIQUE = ("Lean 4 theorems over the model of the MDSDRV_Converter constructor assembly / get_mds (Model/MdsFile on top of Model/MdsConv, MdsCodec, MdsData, Wave, Riff) "
              "+ resolver spec (Spec/MdsResolve) run on the REAL file + differential correspondence model<->mdsdrv.cpp on the whole MDS file")
-LEVEL_TEXT = ("Machine-checked: every exported file walks back (RiffTree client walker) to RIFF/MDS0 [ver,grp,seq,LIST dblk(glob|pcmh)*,pcmd] with the table version (C09_mds_shape); "
-              "the seq header holds base = 4+4n, the volume byte, the track count, one table entry per converted channel track in conversion order whose offset is the start of "
-              "that track's stream inside the chunk (C09_track_table_exact), followed by exactly |subs|+|macros|+|data| two-byte slots, the stream slots pointing at the starts of the "
-              "subroutine and macro streams and the data slots zero (C09_slot_count); header byte 2 = min 127 of the #volume number (C09_volume_carried); dblk ids are pairwise "
-              "distinct slot indices given that used_data_map numbers its keys 0,1,2,.. (C09_ids_injective_partial; get_envelope, the only writer, is proved to keep that); every index operand the converter writes fits its byte or the export is rejected (C09_index_fits_byte; D19 fixed). "
-              "index_resolves / nothing_unused over the recursive writer are decided per case by the resolver oracle on the real bytes (kept as C09_full_statement).")
-LEVEL_NOTE = ("Partial: index_resolves, nothing_unused and the UsedOk hypothesis of ids_injective (an invariant carried through the mutually recursive writer) are not proved; "
-              "track_table_exact / slot_count hold without a size hypothesis since the converter rejects stream offsets above 65535 (second fix); they are checked by Spec/MdsResolve.checkFile on the real file of "
-              "every generated song (every INS/PCM/PEG/MTAB/PAT/drum-note operand of every reachable stream resolved and compared with the C11 encoding / the named track). "
-              "Trusted: Lean kernel, hand-written model and spec, C11 encoder model as the reference for entry contents, g++/ASan/UBSan, harness.")
+LEVEL_TEXT = ("Machine-checked over the model of the converter (writer of Model/MdsConv + assembly/get_mds of Model/MdsFile): the exported bytes are the serialisation of "
+              "RIFF/MDS0 [ver,grp,seq,LIST dblk(glob|pcmh)*,pcmd] and walk back to it (C09_mds_shape); header = base 4+4n, volume byte = min 127 #volume, count, one entry per channel "
+              "track of the song (ids < 16, ascending, at most 16: C09_tracks_exact) whose offset is the start of that track's convert_track bytes (C09_track_table_exact); exactly "
+              "|subs|+|macros|+|data| slots follow, stream slots point at the subroutine / macro streams, data slots are zero (C09_slot_count). An invariant carried through the "
+              "mutually recursive hook/runWriter/getSubroutine/getMacroTrack by induction on the fuel (Proofs/MdsHook, MdsInv, MdsInd) gives: the three maps number their keys 0,1,2,.. "
+              "injectively, hence dblk ids are pairwise distinct (C09_ids_injective); every PAT/INS/PCM/PEG/MTAB event of every emitted list refers to a key present in its map, the "
+              "index leads through the pointer table to the bytes of the list registered under that key, and that list is what the writer makes of the track the key names "
+              "(C09_index_resolves); every used_data_map key has its dblk entry holding the named data-bank item (C09_data_resolves); every subroutine, macro track and data item is "
+              "the target of an emitted index-bearing event (C09_nothing_unused); operands fit their byte or the export is rejected (C09_index_fits_byte; D19 and the 16-bit offset wrap fixed).")
+LEVEL_NOTE = ("Hypothesis PlatformClean: no platform `cmd` injects a raw PAT/INS/PCM/PEG/MTAB opcode (the song names nothing for such an operand). Proved on the converter's event lists "
+              "and the exported seq/dblk; NOT proved: that the reader-side byte decoder of Spec/MdsResolve.checkFile reads exactly these operands back out of the convert_track bytes "
+              "(instruction boundaries of the codec) — decided per case by checkFile on the real file of every generated song (C09_full_statement). The per-event statement (the operand "
+              "pushed while handling THIS song event carries the index registered under the key THIS event names) is proved per hook call (C09_event_names); maps only grow.  Macro-track streams drop index operands and "
+              "zero-length drum notes emit no byte: nothing_unused is about emitted events, not bytes. Trusted: Lean kernel, hand-written model and spec, C11 encoder model as the "
+              "reference for entry contents, g++/ASan/UBSan, harness.")
 RULE = ("songs built from items {fm, 2op, psg, pcm instrument, normal/extended pitch envelope, subroutine, shared subroutine, drum routine, macro track}: corpus (D7, D19 and the "
         "index-limit boundaries 254/255/256), all permutations of definition order x first-use order for item sets of size <= 4 (flat, nested in subroutines, shared between "
         "channels), seeded random songs (songgen material + references, unused and duplicate definitions, PCM from generated WAVs), malformed (missing/ill-typed references, "
